@@ -123,6 +123,7 @@ def errName : Err → String
   | .notAllowed => "CompileError:NotAllowed"
   | .duplicateLabel => "CompileError:DuplicateLabel"
   | .unknownNode => "CompileError:UnknownNodeType"
+  | .tooManyParameters => "CompileError:TooManyParameters"
   | .ub u => "UB:" ++ (reprStr u)
 
 /-- insertion sort by key -/
